@@ -12,7 +12,9 @@
 (* Names are small integers (the JSON bridge maps them to strings):         *)
 (*   1 "a"   2 "A"   3 "b"   4 "e-acute"   5 "a.b"   6 forbidden-character  *)
 (* FoldName is the case folding of a case-insensitive provider.  Contents   *)
-(* are ids 1..10 of fixed byte strings, see SizeOf / SizeClass.             *)
+(* are ids 1..18 of fixed, pairwise DIFFERENT byte strings drawn around the *)
+(* boundaries of a head+tail sampler, see the table at SizeOf.  In the      *)
+(* model the hash of a file IS its content id: equal ids <=> equal hashes.  *)
 (*                                                                          *)
 (* Every call is a PURE operator  P<Call>(f, n, args)  returning            *)
 (*   [errs, oid, fs, next, evs] :  errs = set of error classes that apply   *)
@@ -36,10 +38,38 @@ OK == 0   EXISTS == 1   NOTFOUND == 2   NOTEMPTY == 3   NAMEERR == 4   INVALID =
 FILE == 1   DIR == 2
 ROOT == 1
 
-SizeOf    == <<0, 1, 1023, 1024, 1025, 2048, 2049, 3000, 3000, 3000>>   \* bytes of content id c
-SizeClass(c) == IF c = 1 THEN 0 ELSE IF c <= 3 THEN 1 ELSE IF c <= 6 THEN 2 ELSE 3
-AllContents == 1..10
-\* contents 8 and 10 differ only in their middle bytes (same first and last KiB); all others differ everywhere
+\* ---- contents --------------------------------------------------------------------------------------
+\* A content id stands for one byte string; different ids are different byte strings.  All strings are
+\* prefixes of one text (BASE, 3000 bytes) with at most one short range of bytes replaced, so that the
+\* members of a group are distinct but collide under some PARTIAL sampling of the file (a hash that only
+\* looks at the first KiB, at the last KiB, at both, or that treats a sampled prefix as the whole file):
+\*    c      bytes  string                                             group
+\*    1          0  empty                                              1  (tiny)
+\*    2          1  BASE[1..1]                                         1
+\*    3, 4     700  BASE[1..700]   / its last 16 bytes replaced        2  (< 1 KiB)
+\*    5, 6    1024  BASE[1..1024]  / its last byte replaced            3  (exactly the head block)
+\*    7, 8    1025  BASE[1..1025]  / byte 1025 replaced                4  (head block + 1: same first KiB)
+\*    9, 10   1500  BASE[1..1500]  / its last 16 bytes replaced        5  (1-2 KiB: same first KiB)
+\*   11, 12   2048  BASE[1..2048]  / its last 16 bytes replaced        6  (exactly head + tail block: same first KiB)
+\*   13, 14   2049  BASE[1..2049]  / byte 1025 replaced                7  (the ONE byte in neither block)
+\*   15       3000  BASE                                               8  (> 2 KiB)
+\*   16       3000  bytes 1401..1416 replaced: differs from 15 only in the MIDDLE (neither first nor last KiB)
+\*   17       3000  last 16 bytes replaced:    differs from 15 only in the TAIL
+\*   18       3000  first 16 bytes replaced:   differs from 15 only in the HEAD
+\* The unmodified strings 2, 3, 5, 7, 9, 11, 13, 15 are prefixes of each other (a file that grew by appending).
+\* "The same size with identical bytes" is the same id used twice (two files, or a file uploaded again).
+SizeOf    == <<0, 1, 700, 700, 1024, 1024, 1025, 1025, 1500, 1500, 2048, 2048, 2049, 2049, 3000, 3000, 3000, 3000>>
+AllContents == 1..18
+\* size classes (reported with a failing hash clause): 0 empty, 1 < 1 KiB, 2 exactly 1 KiB, 3 1025..2047 bytes,
+\* 4 exactly 2 KiB, 5 > 2 KiB
+SizeClass(c) == LET n == SizeOf[c] IN
+                IF n = 0 THEN 0 ELSE IF n < 1024 THEN 1 ELSE IF n = 1024 THEN 2 ELSE IF n < 2048 THEN 3
+                ELSE IF n = 2048 THEN 4 ELSE 5
+SizeClasses == 0..5
+Group(c)    == IF c >= 15 THEN 8 ELSE (c + 1) \div 2
+NGroups     == 8
+\* the contents worth writing next to / over content c: the very same bytes and the ones that collide with it
+Partners(c) == {d \in AllContents : Group(d) = Group(c)}
 
 VARIABLES fs, nextOid, feed
 pvars == <<fs, nextOid, feed>>
@@ -162,6 +192,18 @@ Listdir(f, x)    == LET s == {o \in ByOid(f, x) : f[o].type = DIR}
                         ELSE [err |-> OK,
                               ents |-> {[oid |-> PubOid(f, k), name |-> NormName(Leaf(f[k].path)), type |-> f[k].type]
                                         : k \in Kids(f, Pick(s))}]
+
+\* ---- the hash law ------------------------------------------------------------------------------------
+\* In the model the hash of a file is its content id.  For a real provider: rep is a set of <<content id, hash>>
+\* pairs it reported (info_path, info_oid, listdir, hash_oid, the results of create and upload) and hd[c] is what
+\* its data-hash function returns for the bytes of content c.  The law: the reported hash is hash_data of the same
+\* bytes, and ids are equal <=> hashes are equal.  Each operator returns the contents that break its clause.
+HashNotOfData(rep, hd) == {q[1] : q \in {u \in rep : u[2] # hd[u[1]]}}
+EqualBytesDiffer(rep)  == {q[1] : q \in {u \in rep : \E v \in rep : v[1] = u[1] /\ v[2] # u[2]}}
+DifferentBytesCollide(rep) == {q[1] : q \in {u \in rep : \E v \in rep : v[1] # u[1] /\ v[2] = u[2]}}
+DataHashCollide(hd)    == {c \in AllContents : \E d \in AllContents : d # c /\ hd[d] = hd[c]}
+HashLaw(rep, hd) == HashNotOfData(rep, hd) = {} /\ EqualBytesDiffer(rep) = {} /\ DifferentBytesCollide(rep) = {}
+                    /\ DataHashCollide(hd) = {}
 
 \* ---- the event stream read back: what a consumer that follows the documented conventions learns --
 MovePrefix(x, a, b) == IF x = a \/ IsUnder(a, x) THEN b \o SubSeq(x, Len(a) + 1, Len(x)) ELSE x
